@@ -42,17 +42,23 @@ class Model(SOCModel):
             for item in constr:
                 self.st(item)
         elif isinstance(constr, ExpConstr):
+            if constr.model is not self:
+                raise ValueError('Constraints are not defined for this model.')
             self.exp_constr.append(constr)
         elif isinstance(constr, CvxConstr):
             if constr.xtype in 'XLPFN':
+                if constr.model is not self:
+                    raise ValueError('Constraints are not defined for this model.')
                 self.other_constr.append(constr)
             elif constr.xtype in 'OD':
+                if constr.model is not self:
+                    raise ValueError('Constraints are not defined for this model.')
                 self.det_constr.append(constr)
             else:
                 super().st(constr)
-        elif isinstance(constr, KLConstr):
-            self.other_constr.append(constr)
-        elif isinstance(constr, LMIConstr):
+        elif isinstance(constr, (KLConstr, LMIConstr)):
+            if constr.model is not self:
+                raise ValueError('Constraints are not defined for this model.')
             self.other_constr.append(constr)
         else:
             super().st(constr)
